@@ -12,6 +12,9 @@ package main
 import (
 	"fmt"
 	"go/types"
+	"os"
+	"sort"
+	"strings"
 
 	"golang.org/x/tools/go/ssa"
 )
@@ -79,6 +82,10 @@ func (it *Interp) storeBytes(dst Bytes, src Bytes) {
 // blockEnc / blockDec: one block through the idealised cipher.
 func (it *Interp) blockEnc(alg string, key, blk *Term) *Term {
 	c := it.ctx
+	// E(k, D(k, y)) = y, applied syntactically where the argument is visibly a decryption
+	if blk.op == OpUF && blk.name == fmt.Sprintf("D_%s_%d", alg, key.w) && len(blk.args) == 2 && blk.args[0] == key {
+		return blk.args[1]
+	}
 	e := c.UF(fmt.Sprintf("E_%s_%d", alg, key.w), blk.w, key, blk)
 	d := c.UF(fmt.Sprintf("D_%s_%d", alg, key.w), blk.w, key, e)
 	it.axiom(c.Eq(d, blk))
@@ -87,6 +94,9 @@ func (it *Interp) blockEnc(alg string, key, blk *Term) *Term {
 
 func (it *Interp) blockDec(alg string, key, blk *Term) *Term {
 	c := it.ctx
+	if blk.op == OpUF && blk.name == fmt.Sprintf("E_%s_%d", alg, key.w) && len(blk.args) == 2 && blk.args[0] == key {
+		return blk.args[1]
+	}
 	d := c.UF(fmt.Sprintf("D_%s_%d", alg, key.w), blk.w, key, blk)
 	e := c.UF(fmt.Sprintf("E_%s_%d", alg, key.w), blk.w, key, d)
 	it.axiom(c.Eq(e, blk))
@@ -100,6 +110,16 @@ func (it *Interp) axiom(t *Term) {
 	}
 	it.axiomSeen[t] = true
 	it.assertPC(t)
+}
+
+// groupNonZero: results of the group operations have non-zero coordinates (bound of the abstract
+// group model: elements with an all-zero coordinate - and the neutral element - are outside it;
+// this removes the (0,0) special case of crypto/elliptic.Marshal from every path).
+func (it *Interp) groupNonZero(p *Term) {
+	c := it.ctx
+	h := p.w / 2
+	it.axiom(c.Not(c.Eq(c.Extract(p, p.w-1, h), c.BV(0, p.w-h))))
+	it.axiom(c.Not(c.Eq(c.Extract(p, h-1, 0), c.BV(0, h))))
 }
 
 func cipherOf(v Value) *Opaque {
@@ -359,5 +379,65 @@ func init() {
 		alg, _ := it.concreteString(args[0].(Bytes))
 		sizes := map[string]int{"md5": 16, "sha1": 20, "sha224": 28, "sha256": 32, "sha384": 48, "sha512": 64}
 		return it.hashUF(alg, sizes[alg], args[1].(Bytes))
+	}
+	// Abstract group for the key-agreement protocols (C04): points are 2n-byte strings, scalars
+	// fixed-width integers. Scalar multiplication is an uninterpreted function kept in the normal
+	// form GMULj(base, k1..kj) with the scalars ordered, which is exactly the law
+	// a·(b·P) = b·(a·P) = (ab)·P of a Z-module; addition is a commutative uninterpreted function.
+	intrinsics["verifGroupMul"] = func(it *Interp, fr *frame, args []Value, fn *ssa.Function) Value {
+		c := it.ctx
+		P := it.bytesToBV(args[0].(Bytes))
+		K := it.bytesToBV(args[1].(Bytes))
+		base, ks := P, []*Term{K}
+		if P.op == OpUF && strings.HasPrefix(P.name, "GMUL") {
+			base = P.args[0]
+			if inner, ok := it.groupScalars[P]; ok {
+				ks = append(append([]*Term(nil), inner...), K)
+			} else {
+				ks = append(append([]*Term(nil), P.args[1:]...), K)
+			}
+		}
+		raw := append([]*Term(nil), ks...)
+		// the scalars form a multiset: kept in a fixed (term identity) order. Two writings of the same
+		// scalar that are not the same term are ordered independently, which can lose the law (an
+		// alarm, never a missed violation); ordering by value with compare-exchange terms was tried
+		// and is beyond the solver (unknown after 60 s per query).
+		sort.SliceStable(ks, func(i, j int) bool { return ks[i].id < ks[j].id })
+		res := c.UF(fmt.Sprintf("GMUL%d_%d_%d", len(ks), P.w, K.w), P.w, append([]*Term{base}, ks...)...)
+		it.groupScalars[res] = raw // the unsorted scalars, so that nesting re-sorts the originals
+		it.groupNonZero(res)
+		return it.bvToBytes(res)
+	}
+	intrinsics["verifGroupAdd"] = func(it *Interp, fr *frame, args []Value, fn *ssa.Function) Value {
+		c := it.ctx
+		P := it.bytesToBV(args[0].(Bytes))
+		Q := it.bytesToBV(args[1].(Bytes))
+		if Q.id < P.id {
+			P, Q = Q, P
+		}
+		res := c.UF(fmt.Sprintf("GADD_%d", P.w), P.w, P, Q)
+		it.groupNonZero(res)
+		return it.bvToBytes(res)
+	}
+	// membership: results of the group operations are members (as crypto/elliptic assumes for
+	// validated inputs); anything else is decided by an uninterpreted predicate
+	intrinsics["verifGroupOn"] = func(it *Interp, fr *frame, args []Value, fn *ssa.Function) Value {
+		c := it.ctx
+		P := it.bytesToBV(args[0].(Bytes))
+		if P.op == OpUF && (strings.HasPrefix(P.name, "GMUL") || strings.HasPrefix(P.name, "GADD")) {
+			return c.True
+		}
+		if os.Getenv("GOSYM_DEBUG_GROUP") != "" {
+			str := P.String()
+			if len(str) > 3000 {
+				str = str[:3000]
+			}
+			chain := ""
+			for f := fr; f != nil; f = f.caller {
+				chain += f.fn.Name() + " < "
+			}
+			fmt.Fprintf(os.Stderr, "GroupOn: unrecognised point op=%d %s\n   via %s\n", P.op, str, chain)
+		}
+		return c.UF(fmt.Sprintf("GON_%d", P.w), 0, P)
 	}
 }
